@@ -9,7 +9,17 @@ package scanner
 //@     && (s.current == EOF ==> s.currentLen == 0 && s.offset == len(s.text))
 //@ def measure(s *Scanner) int := 2 * (len(s.text) - s.offset) + ((s.currentLen == 0 && s.current != EOF) ? 1 : 0)
 //@ def rangeIn(r Range, s *Scanner) bool := 0 <= r.Start && r.Start <= r.End && r.End <= len(s.text) && r.Text == s.text && r.Path == s.Path
-//@ def errIn(e error, s *Scanner) bool := e != nil ==> typeIs(e, "directives.Error") && rangeIn(dyn(e, "directives.Error").Range, s)
+//@ def errIn(e error, s *Scanner) bool := e != nil ==> typeIs(e, "directives.Error") && rangeIn(dyn(e, "directives.Error").Range, s) && fresh(e)
+//
+// Annotate wraps an error: the result is an error over the scope's own range that carries the given
+// error, unchanged, as its cause.
+//@ func (Scope).Annotate
+//@   requires s.Scanner != nil
+//@   modifies nothing
+//@   ensures typeIs(result, "directives.Error") && result != nil && fresh(result)
+//@   ensures dyn(result, "directives.Error").Range.Start == s.Start && dyn(result, "directives.Error").Range.End == s.Scanner.offset
+//@        && dyn(result, "directives.Error").Range.Text == s.Scanner.text && dyn(result, "directives.Error").Range.Path == s.Scanner.Path
+//@   ensures dyn(result, "directives.Error").Wrapped == err
 //
 //@ func (*Scanner).Advance
 //@   requires wf(s)
